@@ -105,8 +105,13 @@ def check(run, replay=None):
     todo = os.path.join(fx, "codegen", "todolist.allparams.yml")
     gens = []
     media = os.path.join(work, "media.json"); json.dump(media_spec(), open(media, "w"))
+    # free text with characters the templates escape (*/, back-quote, quotes, <&>): which escaper a text goes
+    # through must not vary between runs either
+    import text_family
+    special = json.loads(json.dumps(text_family.base_spec()).replace(text_family.NEUTRAL, "every */5 minutes `x` 'q' <&> %d{{ . }}"))
+    texts = os.path.join(work, "texts.json"); json.dump(special, open(texts, "w"))
     ties = os.path.join(work, "ties.json"); json.dump(ties_spec(), open(ties, "w"))
-    for name, spec in (("wide", wide), ("todolist", todo), ("media", media), ("ties", ties)):
+    for name, spec in (("wide", wide), ("todolist", todo), ("media", media), ("ties", ties), ("texts", texts)):
         for cmd in ("server", "client", "cli"):
             gens.append(dict(id="generate %s %s" % (cmd, name), args=["generate", cmd, "-f", spec, "-t", "{T}", "--name", "verif"], output="{T}", lib=cmd, spec=spec))
         gens.append(dict(id="generate model %s" % name, args=["generate", "model", "-f", spec, "-t", "{T}"], output="{T}", lib="model", spec=spec))
@@ -133,7 +138,7 @@ def check(run, replay=None):
     nseq = 8 if quick else 40
     conc = 4 if quick else 8
     if quick:
-        gens = [g for g in gens if "wide" in g["id"] or "server" in g["id"] or g["id"] in ("generate client media", "generate model ties", "generate markdown ties", "generate server ties keep-spec-order")]
+        gens = [g for g in gens if "wide" in g["id"] or "server" in g["id"] or g["id"] in ("generate client media", "generate model ties", "generate markdown ties", "generate server ties keep-spec-order", "generate model texts", "generate client texts")]
         others = [o for o in others if "classification" not in o["id"]]
     import concurrent.futures
     # the sequential repetitions of different jobs are independent: one driver process per group of jobs
